@@ -178,6 +178,10 @@ Definition prop_rt (input obs : val) : val :=
           if readable && root_ok && negb (chk_load (vnth 4 obs) && chk_load (vnth 5 obs))
           then rt_fail "loadcar-read-back-differs"
           else
+            (* the content conditions of the random-access read-back theorems (C01_roundtrip_*_dec), in their
+               decidable form: they hold of hash-consistent blocks, so a failure here is the generator's *)
+            if readable && negb (consistentb stored && id_consistentb stored) then rt_fail "stored-blocks-not-consistent"
+            else
             let rov := vnth 6 obs in
             let keys_ok := match vnth 2 rov with
                            | VL [VT t; ks; VT e] => String.eqb t "keys" && String.eqb e "nil" &&
